@@ -176,7 +176,8 @@ def run(ctx):
         def to_proto(tps):
             # metric definitions may share a NAME (they differ in type): each is still one definition
             return [TracePointConfig(ID=tp["id"], path=tp["path"], line_number=tp["line"], args=tp["args"], watches=tp["watches"],
-                                     metrics=[Metric(name="m%d" % (q // 2), type=q % 4) for q in range(tp["nmetrics"])]) for tp in tps]
+                                     metrics=[Metric(name=METRIC_NAMES[(q // 2 + len(tp["id"])) % len(METRIC_NAMES)], type=q % 4)
+                                              for q in range(tp["nmetrics"])]) for tp in tps]
         resp = to_proto(resp_tps)
         if k % 2 == 1 and prev_resp_tps:
             # a FOLLOWING response of the same service: some tracepoints of the previous one unchanged (same id, same content),
@@ -243,6 +244,11 @@ def run(ctx):
     ctx.case(dict(register="unknown stage"), bucket="register")
     handler_cases(ctx, 200 if ctx.thorough else 60)
     wire_cases(ctx)
+
+
+# metric names as services send them: dotted, dashed, with a leading digit, empty - whatever a processor later makes of the name, a
+# tracepoint with such a metric is interpreted like any other (one metric action; the rest of the response is installed)
+METRIC_NAMES = ["m0", "m1", "orders.processed", "http-requests", "9lives", "", "m2", "Über.zähler"]
 
 
 def handler_cases(ctx, n):
